@@ -30,6 +30,8 @@ def _universe():
     u['R1'] = Reference('>', u['T0'].columns[0], u['T2'].columns[0])         # identical reference
     u['R2'] = Reference('<', u['T3'].columns[0], u['T4'].columns[0], name='r')
     u['R3'] = Reference('>', u['T0'].columns[0], u['T2'].columns[0], inline=True)  # equal up to inline-ness
+    # a reference between tables that are never contained; one of them (T1) is an equal twin of T0, which may be contained
+    u['R4'] = Reference('>', u['T1'].columns[0], u['T5'].columns[0])
     u['S0'] = StickyNote('n', 'text')
     u['P0'] = Project('p')
     u['P1'] = Project('q')
@@ -52,7 +54,7 @@ MENUS = {
                'ren T0 alias_x', 'del T0', 'del T3', 'add T1'],
     'enums_groups': ['add E0', 'add E1', 'add E2', 'del E0', 'del E2', 'add G0', 'add G1', 'add G2', 'del G0', 'del G1',
                      'adde E0', 'addg G0'],
-    'refs': ['add T0', 'add T2', 'add R0', 'add R1', 'add R2', 'add R3', 'del R0', 'del R2', 'del T0', 'addr R0', 'add T3'],
+    'refs': ['add T0', 'add T2', 'add R0', 'add R1', 'add R2', 'add R3', 'del R0', 'del R2', 'del T0', 'addr R0', 'add T3', 'add R4'],
     'misc': ['add P0', 'add P1', 'del P0', 'del P1', 'add S0', 'add X0', 'add X1', 'del X1', 'del S0', 'add T0', 'del T0', 'addp P1'],
 }
 
